@@ -23,7 +23,11 @@ class Emitter(object):
     def once(self, name, callback, ctx=None):
         if ctx is None:
             ctx = {}
+        fired = []
         def onetime_listener(*args, **ctx):
+            if fired:
+                return  # re-entrant emits still hold this wrapper in their snapshot
+            fired.append(True)
             self.off(name, onetime_listener)
             callback(*args, **ctx)
         onetime_listener._ = callback
